@@ -585,6 +585,18 @@ func (g *c10Gen) genOp() c10M {
 				steps = append(steps, []interface{}{"view", g.itSteps(1 + r.Intn(4))})
 			}
 		}
+		if r.Intn(3) == 0 {
+			// a write followed by a scan of the range it falls in, twice, in the same transaction
+			for k := 0; k < 2; k++ {
+				key := g.someKey()
+				steps = append(steps, []interface{}{"set", c10hex(key), c10hex(g.value())})
+				p := key
+				if len(p) > 1 {
+					p = p[:1]
+				}
+				steps = append(steps, []interface{}{"view", []interface{}{[]interface{}{"scan", c10hex(p)}}})
+			}
+		}
 		return c10M{"op": "update", "steps": steps, "fail": r.Intn(10) == 0}
 	case x < 96:
 		n := r.Intn(6)
@@ -639,6 +651,42 @@ func c10Generate(r *Run) {
 				r.Count("volume:" + op["op"].(string))
 			}
 			r.NonTrivial(fmt.Sprintf("volume-%s-%d", d, n))
+		}
+		// directed: several views inside ONE update transaction with writes between them — each view
+		// must see the transaction's own writes so far (kvindex's removeDocTx / termGetCount open a view
+		// per entry inside the transaction that has just written)
+		{
+			h := func(s string) string { return c10hex([]byte(s)) }
+			scanA := []interface{}{[]interface{}{"scan", h("a")}}
+			for _, fail := range []bool{false, true} {
+				for _, op := range []c10M{{"op": "reset", "driver": d},
+					{"op": "set", "k": h("a1"), "v": h("1")}, {"op": "set", "k": h("a2"), "v": h("2")},
+					{"op": "set", "k": h("a3"), "v": h("3")}, {"op": "set", "k": h("b1"), "v": h("9")},
+					{"op": "update", "fail": fail, "steps": []interface{}{
+						[]interface{}{"view", scanA},
+						[]interface{}{"set", h("a2"), h("22")}, []interface{}{"del", h("a1")}, []interface{}{"set", h("a4"), h("4")},
+						[]interface{}{"view", scanA},
+						[]interface{}{"view", []interface{}{[]interface{}{"seek", h("a")}, []interface{}{"next"}, []interface{}{"next"}, []interface{}{"next"}}},
+						[]interface{}{"get", h("a4")}, []interface{}{"has", h("a1")},
+						[]interface{}{"set", h("a0"), h("0")}, []interface{}{"del", h("a3")},
+						[]interface{}{"view", scanA},
+						[]interface{}{"view", []interface{}{[]interface{}{"rscan", h("az"), h("a")}}},
+						[]interface{}{"set", h("a5"), h("5")},
+						[]interface{}{"view", []interface{}{[]interface{}{"rscan", h("az"), h("a")}}},
+						[]interface{}{"view", scanA},
+					}},
+					{"op": "dump"}} {
+					o := st.exec(op)
+					r.Emit(op, o)
+					r.Count("txview:" + op["op"].(string))
+					if op["op"] == "update" && fail {
+						// rollback or commit after a failed callback: reported, not judged (see below)
+						so := c10M{"op": "sync", "kvs": st.dump()}
+						r.Emit(so, st.exec(so))
+					}
+				}
+			}
+			r.NonTrivial("txview-" + d)
 		}
 		for c := 0; c < cases; c++ {
 			g := &c10Gen{r: r, shadow: map[string]string{}, alpha: []byte("abc")}
